@@ -725,6 +725,12 @@ func (e *SpecEnv) call(n *CallE) Val {
 	case "fresh": // object allocated after function entry
 		r := e.evalRef(n.Args[0])
 		return Term{and(app(">=", r, e.entryAlloc), app("<", r, e.st.allocCtr)), boolT}
+	case "sinceloop": // object allocated after the enclosing loop was entered (loop clauses only)
+		if e.loopPre == nil {
+			bail("spec: sinceloop() outside a loop clause")
+		}
+		r := e.evalRef(n.Args[0])
+		return Term{and(app(">=", r, e.loopPre.allocCtr), app("<", r, e.st.allocCtr)), boolT}
 	case "allocated": // object exists in the state the expression is evaluated in
 		r := e.evalRef(n.Args[0])
 		return Term{and(app("<", "0", r), app("<", r, e.st.allocCtr)), boolT}
@@ -823,7 +829,9 @@ func (e *SpecEnv) call(n *CallE) Val {
 	case "atcall": // atcall(f, e): e evaluated in the state right after the (last) call of f returned
 		ev := e.events(n.Args[0])
 		if len(ev) == 0 || ev[len(ev)-1].After == nil {
-			return e.undefined(n.Args[0], nil, true)
+			// not called on this path: an unconstrained value (its sort is not known here; strings,
+			// references and integers are all Int)
+			return Term{x.declare(e.st, "undef", "Int"), nil}
 		}
 		ch := e.child()
 		ch.st = ev[len(ev)-1].After
@@ -882,7 +890,66 @@ func (e *SpecEnv) undefined(f Expr, idx []Expr, isRes bool) Val {
 			}
 		}
 	}
+	// a named function or method that was not called on this path: type the unconstrained value by its signature
+	if sig := x.lookupCalleeSig(e.fn, exprString(f)); sig != nil {
+		tup := sig.Params()
+		if isRes {
+			tup = sig.Results()
+		} else if sig.Recv() != nil {
+			i-- // arg 0 is the receiver
+		}
+		if i >= 0 && i < tup.Len() {
+			return x.havocVal(e.st, "undef", tup.At(i).Type())
+		}
+	}
 	return Term{x.declare(e.st, "undef", "Int"), nil}
+}
+
+// lookupCalleeSig resolves "Type.Method", "pkg.Func" or "Func" (as written in called()/res()/arg())
+// in the package of fn and its imports.
+func (x *Exec) lookupCalleeSig(fn *ssa.Function, name string) *types.Signature {
+	var pkg *types.Package
+	for f := fn; f != nil; f = f.Parent() {
+		if f.Pkg != nil {
+			pkg = f.Pkg.Pkg
+			break
+		}
+		if f.Origin() != nil && f.Origin().Pkg != nil {
+			pkg = f.Origin().Pkg.Pkg
+			break
+		}
+	}
+	if pkg == nil {
+		return nil
+	}
+	scopes := []*types.Scope{pkg.Scope()}
+	for _, imp := range pkg.Imports() {
+		scopes = append(scopes, imp.Scope())
+	}
+	parts := strings.Split(name, ".")
+	last := parts[len(parts)-1]
+	for _, sc := range scopes {
+		if len(parts) >= 2 {
+			if o, ok := sc.Lookup(parts[len(parts)-2]).(*types.TypeName); ok {
+				for _, T := range []types.Type{o.Type(), types.NewPointer(o.Type())} {
+					ms := types.NewMethodSet(T)
+					for k := 0; k < ms.Len(); k++ {
+						if ms.At(k).Obj().Name() == last {
+							if sig, ok := ms.At(k).Obj().Type().(*types.Signature); ok {
+								return sig
+							}
+						}
+					}
+				}
+			}
+		}
+		if o, ok := sc.Lookup(last).(*types.Func); ok && (len(parts) == 1 || sc != pkg.Scope() || parts[0] == pkg.Name()) {
+			if sig, ok := o.Type().(*types.Signature); ok {
+				return sig
+			}
+		}
+	}
+	return nil
 }
 
 // heapOf resolves a heap object expression (an interface value of known dynamic type, or a pointer).
